@@ -21,4 +21,4 @@ def run(ctx):
         stages.append(dict(variant="asan", name="c12", sources=src, libs=["-lcrypto"], shards=4,
                            args=["--depth", "1", "--only", "chacha"], env={"MATRIX_CHACHA20POLY1305_REF": "1"},
                            replay_filter=lambda case: "g=chacha" in case))
-    return vflib.std_run(ctx, stages, "differential", RULE, ASSUME, min_nontrivial=20000)
+    return vflib.std_run(ctx, stages, "exploration", RULE, ASSUME, min_nontrivial=20000)
